@@ -180,6 +180,10 @@ type Exec struct {
 	known      []knownRegion
 	quiesceReq bool
 	advancing  map[*G]*advState
+	stallFunc  string
+	stallFuncK int
+	stallFuncN int
+	stallFuncG *G
 	natTimers  map[*Value]*Timer
 	sleeping   map[*G]*bool
 	bgCtx      *ctxObj
